@@ -1,2 +1,14 @@
 """Claims per property (imported by sa.registry). Each claim names the decided clauses only."""
 from .registry import claim, decline  # noqa: F401
+
+claim(
+    'C07',
+    'Decided (sufficient under the backtracking model of sre): every regular expression of the package - 59 '
+    'compiled patterns and pattern templates folded from the sources, in every flags variant - is free of '
+    'exponential ambiguity (automata-theoretic EDA criterion with exact look-ahead/look-behind handling), every '
+    'token pattern consumes at least one character and the tokenizer loop advances on every path, no regex '
+    'application escapes the inventory, and custom-selector expansion is memoised. This quantifies over ALL input '
+    'strings, which no test or timing sample can. Not decided: wall-clock constants and the polynomial degree.',
+    'Static only: the regex sources are parsed with re._parser, never compiled or run.',
+    'regex ambiguity analysis (EDA via pair-graph SCC over look-ahead-exact eps-NFA) + scanner-loop path rule',
+)
